@@ -92,3 +92,116 @@ pub fn fail_msg(spec: &Spec, scalar: &str, xs: &[Rat], m: &Mismatch) -> String {
 pub fn f(x: f64) -> R {
     rat_of_f64(x)
 }
+
+// ------------------------------------------------------------------------------------------------
+// generic "view equals its batch definition at every step" clause (used by C05, C06, C11, C13 ...)
+
+use crate::gen::{self, StreamCfg};
+use proptest::prelude::*;
+
+#[derive(Clone)]
+pub struct DefView {
+    pub name: &'static str,
+    pub mk: fn(usize) -> Spec,
+    pub reference: fn(&[R], usize) -> Vec<Want>,
+    pub min_n: usize,
+    /// the definition involves an irrational function (sqrt / exp / ln): 2^-150 relative tolerance instead of equality
+    pub irr: bool,
+    pub positive: bool,
+}
+
+pub fn def_strategy(vd: DefView, hi_q: usize, hi_t: usize, len_mult: usize) -> impl Fn(Tier) -> BoxedStrategy<Case> + Send + Sync {
+    move |tier: Tier| {
+        let vd = vd.clone();
+        (gen::window(tier, vd.min_n, hi_q, hi_t), gen::dyadic_scale())
+            .prop_flat_map(move |(n, sc)| {
+                let mut cfg = StreamCfg::new(n).scale(sc).len(0, len_mult * n + 8);
+                if vd.positive {
+                    cfg = cfg.positive();
+                }
+                let mk = vd.mk;
+                gen::stream(cfg).prop_map(move |xs| Case::of(mk(n), xs))
+            })
+            .boxed()
+    }
+}
+
+pub fn nontrivial_default(case: &Case, n: usize) -> (bool, Vec<String>) {
+    let l = gen::shape_labels(&case.xs, n);
+    let mut v: Vec<_> = case.xs.iter().map(|r| r.big()).collect();
+    v.sort();
+    v.dedup();
+    (case.xs.len() >= 2 * n + 2 && v.len() >= 2, l)
+}
+
+/// exact leg: crate code at Q vs reference, every step
+pub fn def_check_q(id: String, vd: DefView) -> impl Fn(&Case) -> Verdict + Send + Sync {
+    move |case: &Case| {
+        let spec = case.spec();
+        let n = spec.own_windows().first().copied().unwrap_or(1);
+        let h = bigs(&case.xs);
+        let maxabs = running_max_abs(&h);
+        let wants = (vd.reference)(&h, n);
+        let outs = run_q(spec, &h);
+        let irr = vd.irr;
+        let tol = |t: usize| -> R {
+            let scale = &maxabs[t] + R::from_integer(1.into());
+            if irr {
+                tol_q_irr(&(&scale * &scale))
+            } else {
+                tol_q(&scale)
+            }
+        };
+        match compare_q(&outs, &wants, &tol) {
+            Ok(open) => {
+                let (nt, mut l) = nontrivial_default(case, n);
+                if open > 0 {
+                    l.push("open_steps".into());
+                }
+                Verdict::pass(nt, l)
+            }
+            Err(m) => Verdict::fail(format!("{id}|{}", m.aspect), fail_msg(spec, "Q", &case.xs, &m)),
+        }
+    }
+}
+
+/// f64 leg with a caller-supplied tolerance (step, reference value, history, running max|x|) -> admissible |diff|;
+/// `open(step, history)` may exempt ill-conditioned steps (counted).
+pub fn def_check_f64(
+    id: String,
+    vd: DefView,
+    tol: impl Fn(usize, &R, &[R], &R) -> R + Send + Sync + 'static,
+    open: impl Fn(usize, &[R], usize) -> bool + Send + Sync + 'static,
+) -> impl Fn(&Case) -> Verdict + Send + Sync {
+    let qid = id.replace("/f64", "/Q");
+    let qcheck = def_check_q(qid, vd.clone());
+    move |case: &Case| {
+        let spec = case.spec();
+        let n = spec.own_windows().first().copied().unwrap_or(1);
+        let h = bigs(&case.xs);
+        let xs = f64s(&case.xs);
+        let maxabs = running_max_abs(&h);
+        let mut wants = (vd.reference)(&h, n);
+        for t in 0..wants.len() {
+            if open(t, &h, n) {
+                wants[t] = Want::Open;
+            }
+        }
+        let outs = run_f64(spec, &xs);
+        let tolf = |t: usize, r: &R| -> R { tol(t, r, &h, &maxabs[t]) };
+        match compare_f64(&outs, &wants, &tolf) {
+            Ok(openn) => {
+                let (nt, mut l) = nontrivial_default(case, n);
+                if openn > 0 {
+                    l.push("open_or_ill_conditioned_steps".into());
+                }
+                Verdict::pass(nt, l)
+            }
+            Err(m) => {
+                crate::q::arena_reset();
+                let exact_ok = matches!(qcheck(case), Verdict::Pass { .. });
+                Verdict::fail(format!("{id}|{}{}", m.aspect, if exact_ok { "|exact_ok" } else { "" }), fail_msg(spec, "f64", &case.xs, &m))
+            }
+        }
+    }
+}
